@@ -50,6 +50,7 @@ def _rand(rng, steps, n, nk):
             vid = rng.randint(1, 5)            # 5: a C string, stored through putstr / putstrf and read back through getstr
             ln = max(4, ln) if ln in (1, 2, 3) else ln
             if vid >= 3: ln = max(ln, 8)          # values 3/4 equal value 1 up to an embedded NUL at offset 5
+            if vid <= 2 and rng.random() < 0.04: ln = 0      # an empty value: refused (invalid argument), nothing changes
             seg.append(dict(op="put", a=k, vid=vid, len=ln))
         elif r < 0.7: seg.append(dict(op="rm", a=k, vid=0, len=0))
         elif r < 0.85: seg.append(dict(op="get", a=k, vid=0, len=0))
